@@ -6,12 +6,77 @@ package main
 // reached through the table exported by hooks/C27/pkg__cluster__channels.
 
 import (
+	"errors"
 	"fmt"
 	"os"
 	"reflect"
 
+	ch "github.com/WuKongIM/WuKongIM/pkg/channel"
 	"github.com/WuKongIM/WuKongIM/pkg/cluster/channels"
 )
+
+var c27ErrType = reflect.TypeOf((*error)(nil)).Elem()
+
+var c27ChanErrs = []error{ch.ErrInvalidConfig, ch.ErrBackpressured, ch.ErrNotLeader, ch.ErrNotReady, ch.ErrStaleMeta,
+	ch.ErrChannelNotFound, ch.ErrNotReplica, ch.ErrClosed, ch.ErrTooManyChannels}
+
+// c27ChanFix repairs a reflection-filled value into what the codec is specified to carry:
+//   - batch containers encode a plain count: a nil Items slice comes back empty;
+//   - a "not found" head carries no message;
+//   - error fields are one of the sentinel classes the RPC error form can name (or a plain message);
+//   - known lossy fields (reported as findings) are exercised on a minority of the values only, so
+//     that every other field is compared strictly on the rest.
+func c27ChanFix(f *c27Filler, v reflect.Value) {
+	switch v.Kind() {
+	case reflect.Ptr:
+		if !v.IsNil() {
+			c27ChanFix(f, v.Elem())
+		}
+	case reflect.Slice, reflect.Array:
+		if v.Type().Elem().Kind() == reflect.Uint8 {
+			return
+		}
+		for i := 0; i < v.Len(); i++ {
+			c27ChanFix(f, v.Index(i))
+		}
+	case reflect.Interface:
+		if v.Type() == c27ErrType && v.CanSet() && f.R.Chance(35) {
+			switch f.R.Intn(3) {
+			case 0:
+				v.Set(reflect.ValueOf(c27ChanErrs[f.R.Intn(len(c27ChanErrs))]))
+			case 1:
+				v.Set(reflect.ValueOf(fmt.Errorf("%w: %s", c27ChanErrs[f.R.Intn(len(c27ChanErrs))], f.ID())))
+			default:
+				v.Set(reflect.ValueOf(errors.New("boom " + f.ID())))
+			}
+		}
+	case reflect.Struct:
+		if v.Type() == c27TimeType {
+			return
+		}
+		t := v.Type()
+		for i := 0; i < v.NumField(); i++ {
+			if t.Field(i).PkgPath == "" {
+				c27ChanFix(f, v.Field(i))
+			}
+		}
+		switch t.Name() {
+		case "PullBatchRequest", "PullBatchResponse", "PullHintBatchRequest", "PullHintBatchResponse":
+			if it := v.FieldByName("Items"); it.IsValid() && it.Kind() == reflect.Slice && it.IsNil() {
+				it.Set(reflect.MakeSlice(it.Type(), 0, 0))
+			}
+		}
+		if fd, msg := v.FieldByName("Found"), v.FieldByName("Message"); fd.IsValid() && msg.IsValid() && fd.Kind() == reflect.Bool && !fd.Bool() {
+			msg.Set(reflect.Zero(msg.Type()))
+		}
+		if so := v.FieldByName("SyncOnce"); so.IsValid() && so.Kind() == reflect.Bool && (t.Name() == "Message" || t.Name() == "Record") && !f.R.Chance(4) {
+			so.SetBool(false)
+		}
+		if rg := v.FieldByName("RouteGeneration"); rg.IsValid() && t.Name() == "Meta" && !f.R.Chance(4) {
+			rg.SetUint(0)
+		}
+	}
+}
 
 func init() {
 	for _, vc := range channels.VerifCodecs() {
@@ -21,6 +86,7 @@ func init() {
 				c27ReplFiller(f)
 				v := reflect.New(vc.Type).Elem()
 				f.Fill(v)
+				c27ChanFix(f, v)
 				return v.Interface()
 			},
 			enc: vc.Encode, dec: vc.Decode,
